@@ -45,11 +45,14 @@ type placeholder struct {
 	Num         int  `json:"num"`
 }
 
-func (p *Parser) deconstructPacket(rv reflect.Value, numBuffers *int) (buffers [][]byte, err error) {
-	return p.deconstructValue(rv, numBuffers)
+// The walk replaces every Binary by its placeholder in place. Each replacement appends
+// a function to `undo` that puts the original value back: the caller runs them (in reverse)
+// once the JSON part is written, so that the values given to Encode are left as they were.
+func (p *Parser) deconstructPacket(rv reflect.Value, numBuffers *int, undo *[]func()) (buffers [][]byte, err error) {
+	return p.deconstructValue(rv, numBuffers, undo)
 }
 
-func (p *Parser) deconstructValue(rv reflect.Value, numBuffers *int) (buffers [][]byte, err error) {
+func (p *Parser) deconstructValue(rv reflect.Value, numBuffers *int, undo *[]func()) (buffers [][]byte, err error) {
 	k := rv.Kind()
 	original := rv
 	if k == reflect.Interface || k == reflect.Ptr {
@@ -72,7 +75,7 @@ func (p *Parser) deconstructValue(rv reflect.Value, numBuffers *int) (buffers []
 			sl := rv.Len()
 			for i := 0; i < sl; i++ {
 				el := rv.Index(i)
-				b, err := p.deconstructValue(el, numBuffers)
+				b, err := p.deconstructValue(el, numBuffers, undo)
 				if err != nil {
 					return nil, err
 				}
@@ -90,7 +93,7 @@ func (p *Parser) deconstructValue(rv reflect.Value, numBuffers *int) (buffers []
 				return nil, errBinaryCannotBeAPtr
 			}
 
-			buf, err := p.deconstructBinaryValue(rv, original, numBuffers, nil)
+			buf, err := p.deconstructBinaryValue(rv, original, numBuffers, undo, nil)
 			if err != nil {
 				return nil, err
 			}
@@ -103,18 +106,20 @@ func (p *Parser) deconstructValue(rv reflect.Value, numBuffers *int) (buffers []
 			ne := reflect.New(rv.Type())
 			el := ne.Elem()
 			el.Set(rv)
+			prev := rv
+			*undo = append(*undo, func() { original.Set(prev) })
 			original.Set(ne)
 			rv = el
 		}
 
-		b, err := p.deconstructStruct(rv, numBuffers)
+		b, err := p.deconstructStruct(rv, numBuffers, undo)
 		if err != nil {
 			return nil, err
 		}
 		buffers = append(buffers, b...)
 
 	case reflect.Map:
-		b, err := p.deconstructMap(rv, numBuffers)
+		b, err := p.deconstructMap(rv, numBuffers, undo)
 		if err != nil {
 			return nil, err
 		}
@@ -128,6 +133,7 @@ func (p *Parser) deconstructBinaryValue(
 	rv reflect.Value,
 	original reflect.Value,
 	numBuffers *int,
+	undo *[]func(),
 	customSetter func([]byte) error,
 ) (buf []byte, err error) {
 	if rv.CanInterface() {
@@ -152,6 +158,7 @@ func (p *Parser) deconstructBinaryValue(
 					return nil, err
 				}
 			} else if rv.CanSet() {
+				*undo = append(*undo, func() { rv.SetBytes(buf) })
 				rv.SetBytes([]byte(pBuf))
 			} else {
 				if !original.CanSet() {
@@ -167,6 +174,7 @@ func (p *Parser) deconstructBinaryValue(
 
 				x := reflect.New(rv.Type())
 				x.Elem().Set(n)
+				*undo = append(*undo, func() { original.Set(rv) })
 				original.Set(x)
 			}
 		}
@@ -175,7 +183,7 @@ func (p *Parser) deconstructBinaryValue(
 	return
 }
 
-func (p *Parser) deconstructStruct(rv reflect.Value, numBuffers *int) (buffers [][]byte, err error) {
+func (p *Parser) deconstructStruct(rv reflect.Value, numBuffers *int, undo *[]func()) (buffers [][]byte, err error) {
 	nf := rv.NumField()
 
 	for i := 0; i < nf; i++ {
@@ -191,7 +199,7 @@ func (p *Parser) deconstructStruct(rv reflect.Value, numBuffers *int) (buffers [
 			continue
 		}
 
-		b, err := p.deconstructValue(fv, numBuffers)
+		b, err := p.deconstructValue(fv, numBuffers, undo)
 		if err != nil {
 			return nil, err
 		}
@@ -201,7 +209,7 @@ func (p *Parser) deconstructStruct(rv reflect.Value, numBuffers *int) (buffers [
 	return
 }
 
-func (p *Parser) deconstructMap(rv reflect.Value, numBuffers *int) (buffers [][]byte, err error) {
+func (p *Parser) deconstructMap(rv reflect.Value, numBuffers *int, undo *[]func()) (buffers [][]byte, err error) {
 	iter := rv.MapRange()
 	for iter.Next() {
 		mk := iter.Key()
@@ -225,11 +233,12 @@ func (p *Parser) deconstructMap(rv reflect.Value, numBuffers *int) (buffers [][]
 
 				x := reflect.New(mv.Type())
 				x.Elem().Set(n)
+				*undo = append(*undo, func() { rv.SetMapIndex(mk, original) })
 				rv.SetMapIndex(mk, x)
 				return nil
 			}
 
-			buf, err := p.deconstructBinaryValue(mv, original, numBuffers, set)
+			buf, err := p.deconstructBinaryValue(mv, original, numBuffers, undo, set)
 			if err != nil {
 				return nil, err
 			}
@@ -237,7 +246,7 @@ func (p *Parser) deconstructMap(rv reflect.Value, numBuffers *int) (buffers [][]
 			continue
 		}
 
-		b, err := p.deconstructValue(mv, numBuffers)
+		b, err := p.deconstructValue(mv, numBuffers, undo)
 		if err != nil {
 			return nil, err
 		}
